@@ -887,6 +887,10 @@ def r6_tags(program, rep):
               construct="tag propagation reached", node=fn)
 
 
+r4_order.helper_aware = True
+
+r2_explicit.helper_aware = True
+
 def check(program, rep):
     program.module("rig.bitfield")
     rep.guard(["C08-R1", "C08-R3", "C08-R4"], r1_scan, program, rep)
